@@ -237,3 +237,35 @@ pub fn quiet_panics() {
     if std::env::var("VERIF_DEBUG").is_ok() { return; }
     std::panic::set_hook(Box::new(|_| {}));
 }
+
+
+// ------------------------------------------------------------------ watchdog
+// A call into the real crates that never returns (or eats memory without bound) cannot be caught by catch_unwind.
+// Every such call is bracketed by a `RealCall` guard naming the case; a watchdog thread ends the process with exit
+// code 86 when one call has been running for too long or the process has grown too large, after writing the case
+// to `<out>.hang` so that bin/check can report it as the replay.
+static CALL_STATE: std::sync::Mutex<Option<(std::time::Instant, String)>> = std::sync::Mutex::new(None);
+pub struct RealCall;
+impl RealCall {
+    pub fn new(case: &str) -> RealCall {
+        if let Ok(mut g) = CALL_STATE.lock() { *g = Some((std::time::Instant::now(), case.to_string())); }
+        RealCall
+    }
+}
+impl Drop for RealCall { fn drop(&mut self) { if let Ok(mut g) = CALL_STATE.lock() { *g = None; } } }
+
+pub fn start_watchdog(property: &str, out: &str, limit_s: u64, limit_rss_mb: u64) {
+    let (property, out) = (property.to_string(), out.to_string());
+    std::thread::spawn(move || loop {
+        std::thread::sleep(std::time::Duration::from_millis(500));
+        let rss_mb = std::fs::read_to_string("/proc/self/statm").ok().and_then(|t| t.split(' ').nth(1).and_then(|x| x.parse::<u64>().ok())).map(|pages| pages * 4096 / (1 << 20)).unwrap_or(0);
+        let cur = CALL_STATE.lock().ok().and_then(|g| g.clone());
+        let (stuck, case) = match &cur { Some((t0, c)) => (t0.elapsed().as_secs() >= limit_s, c.clone()), None => (false, String::new()) };
+        if stuck || rss_mb > limit_rss_mb {
+            let reason = if stuck { format!("a call into the real crate did not return within {limit_s} s") } else { format!("the process grew to {rss_mb} MB") };
+            let j = serde_json::json!({"property": property, "class": "does-not-terminate-or-memory-blowup", "case": case, "detail": reason});
+            let _ = std::fs::write(format!("{out}.hang"), j.to_string());
+            std::process::exit(86);
+        }
+    });
+}
